@@ -898,6 +898,64 @@ impl<'a> Decoder<'a> {
 //@ END
 }
 
+
+/// `data.get(a..b)` on a byte slice
+#[verifier::external_body]
+fn slice_get_range<'a>(data: &'a [u8], a: usize, b: usize) -> (r: Option<&'a [u8]>)
+    ensures a <= b <= data@.len() ==> r is Some && r->Some_0@ == data@.subrange(a as int, b as int), !(a <= b <= data@.len()) ==> r is None
+{ unimplemented!() }
+impl InternalValue {
+//@ FROM src/table/data_block/mod.rs :: impl Decodable < DataBlockParsedItem > for InternalValue :: fn parse_restart_key :: OBL C12.17
+//@ SUBST `& mut Cursor < & [ u8 ] >` ==> `&mut Cursor`
+//@ SUBST `data . get ( key_start .. ( key_start + key_len ) )` ==> `slice_get_range(data, key_start, key_start + key_len)`
+    fn parse_restart_key<'a>(
+        reader: &mut Cursor,
+        offset: usize,
+        data: &'a [u8]/*+*/,
+        Ghost(oe): Ghost<Option<InternalValue>>, Ghost(tail): Ghost<Seq<u8>>/*-*/,
+    ) -> /*+*/(r:/*-*/ Option<(&'a [u8], SeqNo)>/*+*/)
+        requires old(reader).pos == 0, offset <= data@.len() <= usize::MAX / 2, old(reader).data == data@.skip(offset as int),
+            oe is Some ==> fits(oe->Some_0) && old(reader).rest() == full_bytes(oe->Some_0) + tail,
+            oe is None ==> old(reader).data.len() > 0 && old(reader).data[0] == TRAILER_START_MARKER,
+        ensures oe is None ==> r is None,
+            // the key and seqno of the restart head stored at `offset`
+            oe is Some ==> r is Some && r->Some_0.0@ == ukey(oe->Some_0) && r->Some_0.1 == oe->Some_0.key.seqno,/*-*/
+    {
+        /*+*/let ghost e = oe->Some_0;
+        let ghost d = reader.data;
+        let ghost k = ukey(e); let ghost vp = value_part(e);
+        let ghost t = seq![tag(e.key.value_type)]; let ghost s64 = var64(e.key.seqno); let ghost kl = var16(k.len() as u16);
+        proof {
+            if oe is Some {
+                assert(full_bytes(e) + tail =~= t + (s64 + (kl + (k + (vp + tail)))));
+                lemma_advance(d, 0, t, s64 + (kl + (k + (vp + tail))));
+                assert(d[0] == d.subrange(0, 1)[0]);
+            }
+        }/*-*/
+        let value_type = unwrap!(reader.read_u8());
+
+        if value_type == TRAILER_START_MARKER {
+            return None;
+        }
+
+        let seqno = unwrap!(reader.read_u64_varint());
+        /*+*/proof { lemma_advance(d, 1, s64, kl + (k + (vp + tail))); }/*-*/
+
+        let key_len: usize = unwrap!(reader.read_u16_varint()).into();
+        /*+*/proof { lemma_advance(d, 1int + s64.len(), kl, k + (vp + tail)); }/*-*/
+        let key_start = offset + reader.position() as usize;
+        let key_len_i64 = key_len as i64;
+        /*+*/let ghost pk = reader.pos;/*-*/
+        unwrap!(reader.seek_relative(key_len_i64));
+        /*+*/proof { lemma_advance(d, pk, k, vp + tail); lemma_skip_sub(data@, offset as int, offset + pk, offset + pk + k.len()); }/*-*/
+
+        let key = slice_get_range(data, key_start, key_start + key_len);
+
+        key.map(|k/*+*/: &'a [u8]/*-*/| /*+*/-> (o: (&'a [u8], SeqNo)) ensures o.0@ == k@ && o.1 == seqno {/*-*/ (k, seqno) /*+*/}/*-*/)
+    }
+//@ END
+}
+
 struct DataBlock { inner: Block }
 proof fn lemma_body_mono(items: Seq<InternalValue>, k: int, n: int, ri: int)
     requires 0 <= k <= n
